@@ -35,6 +35,8 @@ class World(object):
         self.behind_hello_used = False
         self.same_server = False
         self.raise_on_pong = False
+        self.socket_like = False
+        self.connect_via_event = False
         self.srv_static = None
         self.nevent = 0
         try:
@@ -90,6 +92,8 @@ class World(object):
 
                 def disc(d=d):
                     w.wire.append(("disconnect", d.idx, d.open))
+                    if w.socket_like and not d.open:
+                        return          # the socket dispatcher does not call back for a connection that is already closed
                     d.open = False
                     w.net.onDisconnected()
                 d.disconnect = disc
@@ -194,7 +198,13 @@ class World(object):
 
         def env():
             if name == "ConnectRequest":
-                self.iface.connect()
+                if self.connect_via_event:
+                    from yowsup.layers import YowLayerEvent
+                    from yowsup.layers.network import YowNetworkLayer
+                    # the way applications and the demos ask for a connection: the CONNECT event broadcast through the stack
+                    self.stack.broadcastEvent(YowLayerEvent(YowNetworkLayer.EVENT_STATE_CONNECT))
+                else:
+                    self.iface.connect()
             elif name == "DispatcherConnected":
                 d = self.dispatchers[-1]
                 d.open = True
@@ -272,6 +282,7 @@ class World(object):
 def replay_path(run, g, path, ropt, popt, label, variant=False):
     w = World(ropt, popt)
     w.same_server = variant
+    w.connect_via_event = variant
     try:
         w.start()
         init, steps = g.path_steps(path)
